@@ -254,6 +254,8 @@ class C05(Engine):
 			E = lambda m, v: {'op': 'edit', 'm': m, 'v': v, 'dt': 10**9}
 			cases.append({'pool': pool, 'kind': 'loop', 'ops': [{'op': 'loop', 'steps': [op_run(), E(leaf, 1), op_run()]}]})
 			cases.append({'pool': pool, 'kind': 'loop', 'ops': [op_run(), {'op': 'loop', 'steps': [op_run(), E(top, 1), op_run(), E(leaf, 2), E(top, 2), op_run()]}, op_run()]})
+		# a raw read of a source cut short at a statement boundary (only code that reads sources unbuffered has such reads)
+		cases.append({'pool': pools.fixed_pool(0), 'kind': 'short-read', 'ops': [{'op': 'short-read-sweep', 'm': pools.core(pools.fixed_pool(0))[-1], 'cap': 8 if getattr(self, 'tier', 'quick') == 'quick' else 40}]})
 		# truncation pass: each class of cache file cut at byte offsets (head, interior, tail), then a normal run
 		quick = getattr(self, 'tier', 'quick') == 'quick'
 		offs: list[tuple[str, int]] = [('abs', 0), ('abs', 1), ('frac', 5000), ('end', 1)] if quick else \
